@@ -191,6 +191,34 @@ def other_order(ctx: Ctx):
                f"the definition written with its containers listed leaf-first re-loads inconsistently: {bad}")
 
 
+def hand_written(ctx: Ctx):
+    """The hand-written document (spellings the writer never produces): loaded, written, loaded again - same definition, and
+    every packet of its decision table decodes identically with the original and with the re-loaded definition."""
+    from ..xmlmodel import parse_text
+    from .c01 import third_cases
+    r = round_trip(ctx, "hand-written document", lambda h: X.load(h, parse_text(X.third_text()), "xtce"))
+    if not r:
+        return
+    h, d, d1, d2 = r
+    site = f"{DEF}::XtcePacketDefinition::hand-written document::decode-equivalence"
+    bad = None
+    try:
+        for desc, apid, user in third_cases():
+            outs = []
+            for dd in (d, d1, d2):
+                h.it.events.clear()
+                k, got = h.outcome("d.packet_generator(src, yield_unrecognized_packet_errors=True)", DEF, d=dd, src=ccsds_bytes(user, apid=apid))
+                outs.append((k, X.fingerprint(got) if k == "ok" else got, sum(1 for e in h.it.events if e[0] == "warn")))
+            if not (outs[0] == outs[1] == outs[2]):
+                j = 1 if outs[0] != outs[1] else 2
+                bad = (f"packet `{desc}` decodes differently after {j} write/load cycle(s): {str(outs[0][1])[:200]} vs {str(outs[j][1])[:200]}")
+                break
+    except (Unsupported, StepLimit) as e:
+        ctx.unknown("R9.dec", site, str(e))
+        return
+    ctx.decide(bad is None, "R9.dec", site, "every packet of the document's decision table", bad or "")
+
+
 def check(ctx: Ctx) -> None:
     r = ctx.guard("R9.rt", DEF, round_trip, ctx, "kitchen-sink", X.build_kitchen_sink)
     if r:
@@ -214,6 +242,7 @@ def check(ctx: Ctx) -> None:
     ctx.guard("R9.rt", DEF, round_trip, ctx, "equal-but-distinguishable enumeration keys; every supported character set",
               lambda h: h.ev(X.twins_src(X.supported_charsets(h)), DEF))
     ctx.guard("R9.ord", DEF, other_order, ctx)
+    ctx.guard("R9.rt", DEF, hand_written, ctx)
 
 
 def mutants(prog):
